@@ -630,7 +630,10 @@ def same_key_other_certificate_case(tag, kind, order, storage):
     ghost_name = list(c.name[:-2]) + [comp('ghost'), c.name[-1]]
     pG = A.data
     pGhost = make_elem([comp('s'), comp('data'), comp('alice'), comp('g')], b'g', c.holds, ghost_name)
-    packets = {'pG': pG, 'pGhost': pGhost}
+    # pDig: signed by the same key, the key locator is the certificate's name followed by an implicit digest that is NOT the
+    # digest of that certificate: no packet has this full name, so nothing can be retrieved for it
+    pDig = make_elem([comp('s'), comp('data'), comp('alice'), comp('d')], b'd', c.holds, list(c.name) + [b'\x01\x20' + b'\x11' * 32])
+    packets = {'pG': pG, 'pGhost': pGhost, 'pDig': pDig}
     lr = LoopRun()
     results = []
     try:
@@ -765,7 +768,7 @@ def run_independence(idx, seed):
                     if errors:
                         out.append(('C14:unhandled-error-in-loop:' + kind, '%s' % errors[:2], inp))
         # one instance, one key, two certificate names: the cache must not make a never-issued certificate acceptable
-        for order in (('pG', 'pGhost'), ('pGhost', 'pG'), ('pG', 'pGhost', 'pG', 'pGhost')):
+        for order in (('pG', 'pGhost'), ('pGhost', 'pG'), ('pG', 'pGhost', 'pG', 'pGhost'), ('pG', 'pDig'), ('pDig', 'pG', 'pDig')):
             for storage in ('default', 'fresh'):
                 tag = 'g%d-%s-%s-%s-%d' % (idx, kind, '-'.join(order), storage, seed)
                 results, errors, pending, pGhost = same_key_other_certificate_case(tag, kind, order, storage)
